@@ -135,10 +135,13 @@ def run_interleave(case):
             except (NoConvergence, RecursionError) as e:
                 return f"diverges {e}"
 
-        queries = [("call", ()), ("call", ("a",)), ("call", ("a", "a")), ("total_weight", None), ("epsremove", None), ("reverse", None), ("trim", None), ("renumber", None), ("to_cfg", None), ("to_bytes", None), ("star", None), ("A+A", None), ("accessible", None), ("dim", None)]
+        queries = [("call", ()), ("call", ("a",)), ("call", ("a", "a")), ("total_weight", None), ("epsremove", None), ("reverse", None), ("trim", None), ("renumber", None), ("to_cfg", None), ("to_bytes", None), ("star", None), ("A+A", None), ("accessible", None), ("dim", None), ("forward", None), ("backward", None)]
 
         def apply_query(m, q):
             o, c = q
+            if o in ("forward", "backward"):
+                # state potentials (reading them must not change the automaton: later answers are compared with a fresh object's)
+                return _call(lambda: ("val", {repr(k): v for k, v in dict(getattr(m, o)).items() if v != Poly.zero}))
             if o == "call":
                 return _call(lambda: ("val", m(c)))
             if o == "total_weight":
@@ -151,6 +154,36 @@ def run_interleave(case):
                 return gtab(_call(lambda: m.to_cfg(S="<S>")))
             f = {"epsremove": lambda: m.epsremove, "reverse": lambda: m.reverse, "trim": lambda: m.trim, "renumber": lambda: m.renumber, "to_bytes": m.to_bytes, "star": m.star, "A+A": lambda: m + m}[o]
             return tab(_call(f))
+
+        class Mutated:
+            """Answer of a query that changed the automaton it was asked on; equal to nothing (not even to the
+            same mutation on the fresh reference object), so the history is reported."""
+
+            def __init__(self, what):
+                self.what = what
+
+            def __eq__(self, o):
+                return False
+
+            def __ne__(self, o):
+                return True
+
+            def __repr__(self):
+                return f"QUERY MODIFIED THE AUTOMATON: {self.what}"
+
+        def snap(m):
+            st, sp, arcs = machine_data(m)
+            return (sorted((repr(k), repr(v)) for k, v in st.items()), sorted((repr(k), repr(v)) for k, v in sp.items()), sorted(map(repr, arcs)))
+
+        pure_query = apply_query
+
+        def apply_query(m, q):  # noqa: F811
+            before = snap(m)
+            ans = pure_query(m, q)
+            after = snap(m)
+            if after != before:
+                return Mutated(f"{q[0]}: start/stop/arcs {before} -> {after}")
+            return ans
 
         res = eh.explore_interleaved(make, list(range(len(pool))), queries, apply_builder, apply_query, lambda a, b: a == b, depth=4, max_queries=2 if TIER != "thorough" else 3)
         total["histories"] += res["histories"]
